@@ -128,7 +128,7 @@ def _ulp_neighbours(x):
 
 
 NUM_QUICK = (
-    0.0, 1e-17, 1e-05, 1.5e-05, 5e-05, 9.999e-05, 1e-04, 0.0001234, 0.1, 0.3, 1 / 3, 0.5, 1.0,
+    -1234.5678, -2.5, -1.0, -0.3, -1e-05, 0.0, 1e-17, 1e-05, 1.5e-05, 5e-05, 9.999e-05, 1e-04, 0.0001234, 0.1, 0.3, 1 / 3, 0.5, 1.0,
     _math.nextafter(1.0, 0.0), _math.nextafter(1.0, 2.0), 1 - 1e-13, 1 + 1e-13, 1 + 1e-10, 2.5,
     3.0000000000000004, 1234.5678, 123456789012345.6, 999999999999999.9, 1e15, 2.0 ** 52 + 0.5,
 )
@@ -147,7 +147,7 @@ def num_thorough():
     seen = set()
     res = []
     for x in out:
-        if x not in seen and 0 <= x <= 1e15:
+        if x not in seen and -1e15 <= x <= 1e15:
             seen.add(x)
             res.append(x)
     return tuple(res)
